@@ -35,17 +35,21 @@ structure Wire where
   avail : Bytes := []
   cuts : List Nat := []
   writes : List Bytes := []
+  held : Bytes := []          -- `_ansi_held`: read from the transport, not yet returned by `read()`
 deriving Repr
 
 /-- one `Channel.read()`: a transport read of `max 1 (min k |avail|)` bytes (all of it when the cut
-    list is used up), cleaned by `chanRead`.  `none` = nothing to read: the call would block. -/
+    list is used up), cleaned by `chanReadH`.  `none` = nothing to read: the call would block. -/
 def Wire.read (w : Wire) : Option (Bytes × Wire) :=
   if w.avail.isEmpty then none else
   match w.cuts with
-  | [] => some (chanRead w.avail, { w with avail := [] })
+  | [] =>
+    let r := chanReadH w.held w.avail
+    some (r.1, { w with avail := [], held := r.2 })
   | k :: ks =>
     let n := max 1 k
-    some (chanRead (w.avail.take n), { w with avail := w.avail.drop n, cuts := ks })
+    let r := chanReadH w.held (w.avail.take n)
+    some (r.1, { w with avail := w.avail.drop n, cuts := ks, held := r.2 })
 
 /-- the chunks a sequence of reads would return (raw, before cleaning) -/
 def piecesOf : Bytes → List Nat → List Bytes
@@ -111,10 +115,11 @@ def Wire.write (dev : σ → Bytes → σ × Bytes) (s : Wire × σ) (b : Bytes)
 /-- run a read loop on the wire; the wire afterwards has lost exactly the pieces consumed -/
 def Wire.readUntil (stop : Bytes → Bool) (w : Wire) : Option (Bytes × Wire) :=
   let ps := piecesOf w.avail w.cuts
-  match readLoop stop [] (ps.map chanRead) with
+  match readLoop stop [] (cleanPieces w.held ps).1 with
   | none => none
   | some (buf, k) =>
-    some (buf, { w with avail := (ps.drop k).flatten, cuts := w.cuts.drop k })
+    some (buf, { w with avail := (ps.drop k).flatten, cuts := w.cuts.drop k,
+                        held := (cleanPieces w.held (ps.take k)).2 })
 
 /-! ### output processing -/
 
